@@ -20,7 +20,12 @@ CLAIMED['C12'] = (
     'For every fallible space constructor the value stored in the bounds field is traced to its origin and must be the very operands of an ordering test that dominates the Ok return (per reaching definition / per loop element); the accept relation is tabulated over {lt,eq,gt,unordered} so NaN-accepting guards and check-then-transform are reported; radius non-negativity is evaluated through f64::min/max; length gates dominate every use of the provided vector and fail with DimensionMismatch; component constructor errors are ?-propagated; SE2State::new delegates to SO2State::new. Wrapping / normalisation arithmetic is not decided.',
     'Trusted: rustc MIR, mirfacts, IEEE semantics of comparisons and f64::min/max with NaN.',
     'DESIGN.md section 4, C12')
-NOT_BUILT = ['C01', 'C02', 'C03', 'C05', 'C06', 'C08', 'C13', 'C15', 'C16', 'C17', 'C18', 'C19']
+CLAIMED['C01'] = (
+    'must-pass-through-edge (dominating true edge of the motion check / validity query) + value-origin matching over MIR',
+    'Static admission rules on every path of every planner: (prov) every state entering a returned path is a clone of a tree/roadmap node state or a start state; (admit) every non-root container push is dominated by the true edge of a motion check whose `to` argument is the pushed state, or of a validity query on it; (kernel) each motion checker answers true only through is_valid(to) or through the normal exit of an interpolation loop that validates every iterate, whose last iterate is t=1 and that cannot be entered with zero steps; (gate) every Ok of solve is behind the true edge of a validity query on the start state whose false edge returns only InvalidStartState; (root) tree roots are start states or are validated before any Ok.',
+    'Trusted: rustc MIR, mirfacts; assumes S: Clone is value preserving and interpolate(a,b,1) == b (C10, not decided); node states immutable after insertion (C15).',
+    'DESIGN.md section 4, C01')
+NOT_BUILT = ['C02', 'C03', 'C05', 'C06', 'C08', 'C13', 'C15', 'C16', 'C17', 'C18', 'C19']
 for p in NOT_BUILT:
     if p not in CLAIMED:
         NOT_APPLICABLE[p] = 'not built yet (static rule designed in DESIGN.md section 4; moved to claimed when its check exists)'
